@@ -552,6 +552,7 @@ def _snapshot(stack):
 
 
 EV_CLEAR, EV_LIST = 1000000, 1000001     # schedule entries: `eups admin clearLocks` / `listLocks` on stack 0
+EV_KILL = 2000000                        # EV_KILL + i: SIGKILL for locker i
 
 
 def related(procs, i, j):
@@ -679,6 +680,20 @@ def run_schedule(case, phases=None):
         def one(i):
             if i in (EV_CLEAR, EV_LIST):
                 return admin(i)
+            if i >= EV_KILL:
+                # SIGKILL: the locker stops dead wherever it is; whatever it put into the lock directory stays
+                p = procs[i - EV_KILL]
+                executed.append(i)
+                if p.pending is None:
+                    trace.append([p.index, "sigkill", "gone", current_violators(False)])
+                else:
+                    p.signalled = True
+                    p.sigkilled = True
+                    os.kill(p.pid, signal.SIGKILL)
+                    while not p.ended:
+                        p._advance()
+                    trace.append([p.index, "sigkill", "killed", current_violators(True)])
+                return
             if i < 0:
                 # a signal for process -(i+1): delivered while it is in its command body, otherwise not sent at all
                 p = procs[-i - 1]
@@ -765,7 +780,8 @@ def run_schedule(case, phases=None):
                 "held": [p.held if p.nlocks is not None else None for p in procs],
                 "held_kinds": [getattr(p, "held_kinds", None) for p in procs],
                 "status": [p.status for p in procs], "products": products, "stack_changed": changed,
-                "resumed": [p.index for p in procs if p.resumed]}
+                "resumed": [p.index for p in procs if p.resumed],
+                "sigkilled": [p.index for p in procs if getattr(p, "sigkilled", False)]}
     finally:
         for p in procs:
             if not p.ended:
